@@ -585,7 +585,9 @@ class C14(Prop):
           'conflicting parents (retry / last-resort paths of _merge_multi_choice, measured per run); Proportional '
           'with tiny / zero / equal weights and fractional n; a driver-level stream (Evolution, regularized_evolution, '
           'hill_climb, nsga2 for 8-14 propose/feedback rounds with pass-through reproduction stages: no evaluated '
-          'DNA object may change or be proposed again). Non-trivial: the expression returns '
+          'DNA object may change or be proposed again); permutation points of size 4-7 for Order / PartiallyMapped / '
+          'Cycle; `where` filters of a closed family on Uniform / Swap; step-driven scalars (STEP, + - * // %) in '
+          'the integer parameters, each case run at a step 0-9. Non-trivial: the expression returns '
           'normally, the population is non-empty and at least one primitive of the expression made a PRNG '
           'draw or produced a new DNA; distinct: by (spec, population, expression, seed).')
   trusted_base = [
@@ -618,6 +620,16 @@ class C14(Prop):
     # the driver level: Evolution and the shipped algorithms with pass-through reproduction stages
     for i in range(40 if tier == 'quick' else 400):
       yield self.gen_evolve_case(rng.fork())
+    # permutation points of size 4-7 (pg.permutate): long re-mapping chains of PMX, several cycles of CX
+    for i in range(75 if tier == 'quick' else 750):
+      r = rng.fork()
+      size = r.randint(4, 7)
+      perm = ['choices', size, [_C0] * size, True, False]
+      spec = ['space', [perm] + ([gen_point(r, 0)] if r.chance(0.3) else []) + ([perm] if r.chance(0.2) else [])]
+      pop = [{'nums': gen_dna(r, spec), 'fit': r.randint(-3, 6)} for _ in range(2)]
+      prim = ['prim', r.choice(['recPartiallyMapped', 'recPartiallyMapped', 'recCycle', 'recOrder'])]
+      e = r.choice([prim, prim, ['repeat', prim, 2], ['seq', prim, ['seq', ['prim', 'selFirst', 2], prim]]])
+      yield {'spec': spec, 'pop': pop, 'expr': e, 'seed': r.below(1 << 30), 'step': 0}
     # constrained multi-choices with many conflicting parents: the retry and last-resort paths of
     # `_merge_multi_choice` (about one case in eight exhausts the 8 attempts)
     for i in range(90 if tier == 'quick' else 900):
